@@ -11,7 +11,7 @@ VERIF = os.path.abspath(os.path.join(os.path.dirname(__file__), "..", ".."))
 TRUSTED_BASE_COMMON = [
     "Lean 4.33.0 kernel; Mathlib v4.33.0 (compiled); axioms allowed: propext, Classical.choice, Quot.sound only; no native_decide / bv_decide / sorry (grep + #print axioms on every run)",
     "hand-written Lean model's fidelity to the Python source: checked by the correspondence run of this check (differential, bounded by what the generators reach)",
-    "harness/translate/gen.py + py2lean.py + specs.py (Python AST -> Lean: option/constant tables, _draw_decision, and the bodies of the ~65 functions / blocks listed in DESIGN.md 11.3c and 11.3c-bis - the names translated for this check are in coverage.lean.translated_functions); the modelling decisions of specs.py (Lean types, renderings of attribute accesses and external calls, verbatim-mapped statements) are part of the trusted base, the Generated = Model refinement theorems are not: they are re-checked by the kernel on every run",
+    "harness/translate/gen.py + py2lean.py + specs.py (Python AST -> Lean: option/constant tables, _draw_decision, and the bodies of the ~65 functions / blocks listed in DESIGN.md 11.3c and 11.3c-bis - all names translated on this run are in coverage.lean.regenerated.translated_functions); the modelling decisions of specs.py (Lean types, renderings of attribute accesses and external calls, verbatim-mapped statements) are part of the trusted base, the Generated = Model refinement theorems are not: they are re-checked by the kernel on every run",
 ]
 
 
